@@ -14,7 +14,7 @@ from .c09 import dialect_of
 from .c12 import peel
 
 TOKENS = ["ON DUPLICATE KEY UPDATE", "DO UPDATE SET", "DO NOTHING", "ON CONFLICT", "INSERT IGNORE INTO", "INSERT INTO", "REPLACE INTO",
-          "WITH ROLLUP", "WITH TOTALS", "WITH RECURSIVE", "WITH", "SELECT", "DISTINCT ON", "DISTINCT", "TOP", "INTO", "FROM", "FORCE INDEX", "USE INDEX",
+          "WITH ROLLUP", "WITH TOTALS", "WITH RECURSIVE", "WITH TIES", "WITH", "SELECT", "DISTINCT ON", "DISTINCT", "TOP", "INTO", "FROM", "FORCE INDEX", "USE INDEX",
           "PREWHERE", "WHERE", "GROUP BY", "HAVING", "ORDER BY", "LIMIT", "OFFSET", "FETCH NEXT", "FOR UPDATE", "RETURNING", "UPDATE", "SET",
           "DELETE", "VALUES", "INSERT", "REPLACE"]
 TOK_RE = re.compile(r"(?<![A-Za-z_])(" + "|".join(re.escape(t) for t in TOKENS) + r")(?![A-Za-z_])")
@@ -30,6 +30,8 @@ REF = {
     "REPLACE": ["WITH", "INSERT INTO", "REPLACE INTO", "VALUES", "ON CONFLICT", "CONFLICT WHERE", "DO NOTHING", "DO UPDATE SET", "ACTION WHERE", "ON DUPLICATE KEY UPDATE", "RETURNING"],
     "UPDATE": ["WITH", "UPDATE", "JOIN", "SET", "FROM", "WHERE", "ORDER BY", "PAGINATION", "RETURNING"],
     "UPDATE_PG": ["WITH", "UPDATE", "SET", "FROM", "JOIN", "WHERE", "ORDER BY", "PAGINATION", "RETURNING"],
+    # SQLite's update-stmt-limited: ... WHERE expr [returning-clause] [ORDER BY ...] [LIMIT ...]
+    "UPDATE_SQLITE": ["WITH", "UPDATE", "SET", "FROM", "JOIN", "WHERE", "RETURNING", "ORDER BY", "PAGINATION"],
     "DELETE": ["DELETE"] + TAIL,
 }
 PAGINATION = {"LIMIT", "OFFSET", "FETCH NEXT"}
@@ -39,6 +41,7 @@ def tokens_of(v):
     """clause tokens in textual order with their path conditions: [(token, conds)]"""
     out = []
     state = {"after": None}
+    hist: list = []
     for part, conds, in_rep in walk_parts(v):
         if isinstance(part, Lit):
             text = part.text.replace("ORDER BY (SELECT 0)", "ORDER BY (#SYNTHETIC#)")
@@ -53,16 +56,22 @@ def tokens_of(v):
                 elif t == "INTO" and state["after"] == "INSERT":
                     state["after"] = None
                     continue
+                if t == "WITH TIES":
+                    continue        # T-SQL: a modifier of TOP (SELECT TOP (n) WITH TIES ...), not a clause of its own
                 if t in ("WITH ROLLUP", "WITH TOTALS"):
                     t = "GROUP MODIFIER"
                 if t == "WITH RECURSIVE":
                     t = "WITH"
-                if t == "WHERE" and state["after"] == "ON CONFLICT":
-                    t = "CONFLICT WHERE"
-                elif t == "WHERE" and state["after"] == "DO UPDATE SET":
-                    t = "ACTION WHERE"
+                if t == "WHERE":
+                    # which clause the WHERE belongs to: the latest ON CONFLICT / DO UPDATE SET on a path compatible
+                    # with this one (the same text may stand in two alternatives of the skeleton)
+                    after = next((t0 for t0, cs0 in reversed(hist) if not contradictory(cs0, conds)), None)
+                    if after == "ON CONFLICT":
+                        t = "CONFLICT WHERE"
+                    elif after == "DO UPDATE SET":
+                        t = "ACTION WHERE"
                 if t in ("ON CONFLICT", "DO UPDATE SET"):
-                    state["after"] = t
+                    hist.append((t, conds))
                 if t == "ORDER BY" and text[m.end():].lstrip().startswith("(#SYNTHETIC#)"):
                     t = "PAGINATION-ORDER"   # synthetic ORDER BY of SQL Server pagination
                 out.append((t, conds, part))
@@ -182,6 +191,8 @@ def check(program: Program, run: Run) -> None:
                 run.finding(f"C13/clause-twice:{bn}:{kind}:{t}", f"{bn} can emit the clause keyword {t} twice in one {kind} statement (two occurrences with compatible conditions)", rule="R1")
             # order
             refname = "UPDATE_PG" if kind == "UPDATE" and dialect in ("POSTGRESQL", "SQLITE") and bn in ("PostgreSQLQueryBuilder", "SQLLiteQueryBuilder") else kind
+            if refname == "UPDATE_PG" and dialect == "SQLITE":
+                refname = "UPDATE_SQLITE"
             ref = REF[refname]
             rank = {t: i for i, t in enumerate(ref)}
             bad = []
@@ -347,6 +358,17 @@ class _Dep:
             for n in ast.walk(e):
                 if isinstance(n, ast.Call) and isinstance(n.func, ast.Attribute) and isinstance(n.func.value, ast.Name) and n.func.value.id == selfn:
                     tgt = self.recv.resolve(n.func.attr)
+                    if tgt is not None and not tgt.is_builder and tgt.cls is not None:
+                        ad = set()
+                        for a in list(n.args) + [k.value for k in n.keywords]:
+                            ad |= _attrs_in(a, selfn, local)
+                        w, r = self.func(tgt, frozenset(ctrl_now), frozenset(ad), depth + 1)
+                        st["writes"] |= w
+                        deps |= r
+                elif (isinstance(n, ast.Call) and isinstance(n.func, ast.Attribute) and isinstance(n.func.value, ast.Call)
+                      and isinstance(n.func.value.func, ast.Name) and n.func.value.func.id == "super" and f.cls is not None):
+                    # super().helper(...): the next definition after this one in the receiver's MRO
+                    tgt = self.recv.resolve_after(f.cls, n.func.attr)
                     if tgt is not None and not tgt.is_builder and tgt.cls is not None:
                         ad = set()
                         for a in list(n.args) + [k.value for k in n.keywords]:
@@ -532,15 +554,21 @@ def _accumulation(program: Program, run: Run) -> None:
             nm = api_name(c, f)
             d = _Dep(program, c)
             d.func(f, frozenset(), frozenset())
+            # what else the method does: a method that accumulates into a clause, or fills a clause from what it is
+            # given, *addresses* that clause; a constant it stores elsewhere at the same time is a side effect
+            accum = {a2 for a2, fs2 in d.forms.items() if fs2 & {"mutate", "aug", "reads-self"}}
+            computed = {a2 for a2, fs2 in d.forms.items() if "overwrite" in fs2}
             for a, fs in d.forms.items():
                 if fs & {"overwrite", "const"} and not fs & {"mutate", "aug", "reads-self", "init"}:
-                    writers.setdefault(a, {})[nm] = (f, frozenset(d.consts.get(a, ())) if fs == {"const"} else None, d.form_sites.get(a))
+                    is_const = fs == {"const"}
+                    side = bool(accum - {a}) or (is_const and bool(computed - {a}))
+                    writers.setdefault(a, {})[nm] = (f, frozenset(d.consts.get(a, ())) if is_const else None, d.form_sites.get(a), side)
         for a, ws in sorted(writers.items()):
             ms = sorted(ws)
             for i, m1 in enumerate(ms):
                 for m2 in ms[i + 1:]:
-                    f1, c1, _ = ws[m1]
-                    f2, c2, _ = ws[m2]
+                    f1, c1, _, side1 = ws[m1]
+                    f2, c2, _, side2 = ws[m2]
                     key = (f1.qualname, f2.qualname, a)
                     if key in seen6:
                         continue
@@ -548,6 +576,16 @@ def _accumulation(program: Program, run: Run) -> None:
                     npairs += 1
                     same_const = c1 is not None and c1 == c2 and len(c1) == 1
                     reviewed = SAME_CLAUSE_SETTERS.get((a, frozenset((m1, m2))))
+                    # structural reading of "address the same clause": both methods fill the attribute from what they are
+                    # given and neither does so as a side effect of addressing another clause (limit / slice / a new
+                    # paginate()); or one of them is a pure reset (stores nothing but the empty constants) of that clause
+                    EMPTY = {"None", "False", "0", "''", "[]", "()"}
+                    same_clause = (not side1 and not side2) and (
+                        (c1 is None and c2 is None)
+                        or (c1 is not None and c2 is None and c1 <= EMPTY)
+                        or (c2 is not None and c1 is None and c2 <= EMPTY))
+                    if reviewed is None and same_clause:
+                        reviewed = "both calls set this clause from their arguments (or one resets it): the same clause, last call wins by design"
                     ok = same_const or reviewed is not None
                     run.ob("C13/R6 two builder methods overwriting one attribute write the same constant or set the same clause", f"{f1.qualname}+{f2.qualname}:{a}", ok,
                            detail=reviewed or (f"both write {sorted(c1)[0]}" if same_const else f"{m1} writes {sorted(c1) if c1 else 'a computed value'}, {m2} writes {sorted(c2) if c2 else 'a computed value'}"),
